@@ -241,7 +241,7 @@ macro_rules
         vset_nfi, vfrom_nfi, vputU16_nfi, vputU32_nfi, vputU64_nfi, vcopy_nfi, freshRegion_length,
         setB_nf, putU16_nf, putU32_nf, putU64_nf, copyAt_nf, bw_fill_ok, bw_fill_panic,
         putAt_len_any, if_pos, if_neg,
-        wrap_i64_of_range, T_STOP_eq, be64_ofInt_nat, be32_ofInt_nat, msgHeader_eq,
+        wrap_i64_of_range, T_STOP_eq, be64_ofInt_nat, be32_ofInt_nat, msgHeader_eq, msgHeader_eq',
         wrap_wrap, ofInt_wrap, byteOf_wrap_u8, ofNat_toI8, byteOf_zero, byteOf_one, ofNat_ofInt16, shr_8,
         ofInt_wrap_u16, ofInt_wrap_u32, ofInt_wrap_u64]
       <;> congr_omega))
